@@ -779,22 +779,45 @@ where
                 // fail_on_timeout without any timeout: nothing can ever time out
                 b = b.fail_on_timeout(true);
             }
-            let mut b = match mailbox {
+            let b = match mailbox {
                 Mailbox::Unbounded => b.unbounded(),
                 Mailbox::Bounded(n) => b.bounded(*n as usize),
             };
-            match (order, timeout) {
-                (Some(1), Some(t)) => b = b.timeout(dur(*t)).fail_on_timeout(*fail_on_timeout),
-                (Some(3), Some(t)) => b = b.timeout(dur(*t)),
-                _ => {}
+            // orders 1 and 3 configure (part of) the timeout on the channel stage: before the restart
+            // strategy is chosen (t / 4 even) or after it (t / 4 odd).  Every arm ends in its own terminal
+            // call, so that the harness does not depend on the builder type a setter returns.
+            let after_strategy = timeout.is_some_and(|t| (t / 4) % 2 == 1);
+            macro_rules! fin {
+                ($b:expr, $term:ident) => {{
+                    let b = $b;
+                    match (order, timeout) {
+                        (Some(1), Some(t)) => b.timeout(dur(*t)).fail_on_timeout(*fail_on_timeout).$term(),
+                        (Some(3), Some(t)) => b.timeout(dur(*t)).$term(),
+                        _ => b.$term(),
+                    }
+                }};
             }
-            match (strategy, owning) {
-                (RStrat::Default, false) => a(b.spawn()),
-                (RStrat::Default, true) => o(b.spawn_owning()),
-                (RStrat::Recreate, false) => a(b.recreate_from_default().spawn()),
-                (RStrat::Recreate, true) => o(b.recreate_from_default().spawn_owning()),
-                (RStrat::NonRestartable, false) => a(b.non_restartable().spawn()),
-                (RStrat::NonRestartable, true) => o(b.non_restartable().spawn_owning()),
+            macro_rules! fin_then {
+                ($b:expr, $strat:ident, $term:ident) => {{
+                    let b = $b;
+                    match (order, timeout) {
+                        (Some(1), Some(t)) => b.timeout(dur(*t)).fail_on_timeout(*fail_on_timeout).$strat().$term(),
+                        (Some(3), Some(t)) => b.timeout(dur(*t)).$strat().$term(),
+                        _ => b.$strat().$term(),
+                    }
+                }};
+            }
+            match (strategy, owning, after_strategy) {
+                (RStrat::Default, false, _) => a(fin!(b, spawn)),
+                (RStrat::Default, true, _) => o(fin!(b, spawn_owning)),
+                (RStrat::Recreate, false, false) => a(fin_then!(b, recreate_from_default, spawn)),
+                (RStrat::Recreate, true, false) => o(fin_then!(b, recreate_from_default, spawn_owning)),
+                (RStrat::NonRestartable, false, false) => a(fin_then!(b, non_restartable, spawn)),
+                (RStrat::NonRestartable, true, false) => o(fin_then!(b, non_restartable, spawn_owning)),
+                (RStrat::Recreate, false, true) => a(fin!(b.recreate_from_default(), spawn)),
+                (RStrat::Recreate, true, true) => o(fin!(b.recreate_from_default(), spawn_owning)),
+                (RStrat::NonRestartable, false, true) => a(fin!(b.non_restartable(), spawn)),
+                (RStrat::NonRestartable, true, true) => o(fin!(b.non_restartable(), spawn_owning)),
             }
         }
         SpawnSpec::Stream { builder, owning, timeout } => {
